@@ -66,4 +66,35 @@ theorem onSeg_near_ends (x1 y1 x2 y2 qx qy : α) (h : OnSeg x1 y1 x2 y2 qx qy) :
   · rw [b1, b2, abs_mul, abs_mul, abs_of_nonneg s0]
     nlinarith
 
+/-- along a run of `r` consecutive skipped segments starting at vertex `v`, vertex `v + r` is within `r * eps` of vertex `v`
+(in the `|dx| + |dy|` sense of the zero-length test) -/
+theorem run_near (eps : α) (pts : List (α × α)) (v : Nat) :
+    ∀ (r : Nat) (pv pw : α × α), pts[v]? = some pv → pts[v + r]? = some pw →
+      (∀ t, t < r → ∀ a b, pts[v + t]? = some a → pts[v + t + 1]? = some b → skipped eps a.1 a.2 b.1 b.2 = true) →
+      |pw.1 - pv.1| + |pw.2 - pv.2| ≤ (r : α) * eps := by
+  intro r
+  induction r with
+  | zero =>
+    intro pv pw h1 h2 _
+    rw [Nat.add_zero, h1] at h2
+    injection h2 with h2
+    subst h2
+    simp
+  | succ r ih =>
+    intro pv pw h1 h2 hrun
+    have hlt : v + r < pts.length := by
+      have := (List.getElem?_eq_some_iff.mp h2).1
+      omega
+    have hm : pts[v + r]? = some pts[v + r] := List.getElem?_eq_getElem hlt
+    have i1 := ih pv pts[v + r] h1 hm (fun t ht a b ha hb => hrun t (Nat.lt_succ_of_lt ht) a b ha hb)
+    have sk := hrun r (Nat.lt_succ_self r) pts[v + r] pw hm (by rw [← h2]; rfl)
+    have hs : fabs ((pts[v + r]).1 - pw.1) + fabs ((pts[v + r]).2 - pw.2) < eps := by simpa [skipped] using sk
+    rw [fabs_eq_abs, fabs_eq_abs] at hs
+    have t1 : |pw.1 - pv.1| ≤ |pw.1 - (pts[v + r]).1| + |(pts[v + r]).1 - pv.1| := abs_sub_le _ _ _
+    have t2 : |pw.2 - pv.2| ≤ |pw.2 - (pts[v + r]).2| + |(pts[v + r]).2 - pv.2| := abs_sub_le _ _ _
+    rw [abs_sub_comm pw.1 (pts[v + r]).1] at t1
+    rw [abs_sub_comm pw.2 (pts[v + r]).2] at t2
+    push_cast
+    linarith
+
 end TV.Proj
